@@ -174,6 +174,14 @@ let d_item_src = function
       { is_attrs = d_list d_toks attrs; is_fields = d_list (d_list d_toks) fields; is_variants = d_list d_variant_src variants }
   | _ -> fail "item_src"
 
+let rec positive_of_int (i : int) : positive =
+  if i <= 1 then XH else if i land 1 = 1 then XI (positive_of_int (i lsr 1)) else XO (positive_of_int (i lsr 1))
+let n_of_int (i : int) : n = if i = 0 then N0 else Npos (positive_of_int i)
+let d_int = function A s -> int_of_string s | _ -> fail "int"
+let d_value = function
+  | L [idx; fields] -> { v_idx = nat_of_int (d_int idx); v_fields = List.map (fun x -> n_of_int (d_int x)) (match fields with L l -> l | _ -> fail "fields") }
+  | _ -> fail "value"
+
 let print_toks oc ts = List.iter (fun t -> output_char oc '\t'; output_string oc (ostr t)) ts
 
 let () =
@@ -206,6 +214,11 @@ let () =
              | APanic s -> Printf.fprintf oc "A\tPANIC\t%s\n" (ostr s));
             output_string oc "S"; print_toks oc (run_strip item isrc); output_char oc '\n';
             if want_digest then Printf.fprintf oc "D %s\n" (string_of_n (digest_result r))
+        | L [A "observe"; Q id; c; it; vals] ->
+            let lines = observe (d_cfg c) (d_item it) (d_list d_value vals) in
+            Printf.fprintf oc "OBS %s\n" id;
+            List.iter (fun l -> output_string oc (ostr l); output_char oc '\n') lines;
+            output_string oc "END\n"
         | _ -> raise (Parse_error "case")
       end
     done
